@@ -259,7 +259,7 @@ var t2PathForms = []struct {
 }
 
 func c05Paths(r *run.Run) {
-	r.Explore(explore.Config{Name: "C05.path-operators"},
+	r.Explore(explore.Config{Name: "C05.path-operators", Bound: 1},
 		"every path operator in every legal operand-count form (and the illegal neighbours count-1, count+1) x 3 operand-value rotations over {-3,0,2,7,0.5,300,-1200.25} x preceded by another path operator (all ordered pairs) x optional width operand; non-trivial = well-formed program",
 		func(c *explore.Ctx) {
 			f1 := t2PathForms[c.Choose(len(t2PathForms), "operator")]
